@@ -734,6 +734,12 @@ def gen_case(rng, tier, kind=None):
             ops.append(["cell_set_params", path, rng.choice(present if rng.random() < 0.85 else TS), gen_args(rng, 3), kw])
         elif r < 0.86:
             v = rng.choice([0, 1, 2, 3, 4] if tier == "thorough" else [0, 1, 2, 3]) if rng.random() < 0.9 else -1
+            kids = [p for p in nodes if p]
+            if v >= 0 and v != m and kids and rng.random() < 0.35:
+                # directed (R6-C18-m2): one child gets another max_time, then the root is set back to the value its
+                # FIRST child still reports: every leaf must follow, also the one that was out of step
+                ops.append(["set_max_time", rng.choice(kids), v])
+                v = m
             ops.append(["set_max_time", [], v])
             if v >= 0:
                 m = v
